@@ -1,4 +1,5 @@
 pub mod builder;
+pub mod custom;
 pub mod inl;
 pub mod iter;
 pub mod mpc;
